@@ -44,6 +44,9 @@ def run(tier):
     for name, b in gold:
         for m in mset:
             scen.append({"base": {"raw": list(b), "name": name}, "mut": m})
+    for name, cls, b in pyenc.app_goldens(rng):
+        for m in ({"k": "none", "layer": 0, "n": 0}, {"k": "trail", "layer": 0, "n": 1}, {"k": "trail", "layer": 0, "n": 4}):
+            scen.append({"base": {"raw": list(b), "name": name, "cls": cls}, "mut": m})
     # damaged inputs: one octet of an independent-encoder packet replaced (mutation "lie": layer = position, n = value);
     # judged by the weak clause set (same stack, re-parse succeeds, idempotent) - see RoundTrip!WeakRoundTripOK
     lie_vals = [0, 1, 2, 3, 4, 63, 64, 127, 128, 192, 255]
